@@ -3,6 +3,7 @@
   AHP.Model.XPathParse does on the canonical text of one token followed by a well-behaved rest.
 -/
 import AHP.Model.XPathRender
+import AHP.Lemmas.Ws
 namespace AHP.XPath
 
 variable {N : Type}
@@ -150,10 +151,7 @@ theorem isWs_of_lowerChar {c x : Char} (h : lowerChar c = x) (hx : isWs x = fals
   cases hw : isWs c with
   | false => rfl
   | true =>
-    have : lowerChar c = c := by
-      have : c = ' ' ∨ c = '\t' ∨ c = '\n' ∨ c = '\r' ∨ c = '\x0b' ∨ c = '\x0c' ∨ c = '\x1c' ∨ c = '\x1d' ∨ c = '\x1e' ∨ c = '\x1f' := by
-        simpa [isWs, or_assoc] using hw
-      rcases this with rfl | rfl | rfl | rfl | rfl | rfl | rfl | rfl | rfl | rfl <;> decide
+    have : lowerChar c = c := lowerChar_of_isWs hw
     rw [this] at h
     rw [h] at hw
     rw [hw] at hx
